@@ -43,17 +43,18 @@ def t_openlines(M):
     outs = []
     for k in range(3):
         it = G.Interp(M, fn, {"image": Img, "radius": Const("None"), "mask": MaskE, "footprint": Const("se%d" % k)})
-        it.run(G.strip_doc(fn))
-        outs.append(rename_globs(it.ret, "@angle%d" % k))
+        outs.append(rename_globs(it.run_function(), "@angle%d" % k))
     return Pw("sub", Pw("max_axis0", *outs), Pw("min_axis0", *outs))
 
 
 def rename_globs(t, suffix):
     if not isinstance(t, tuple):
         return t
-    if t[0] == "Glob" and t[1] in ("grey_erosion", "grey_dilation"):
-        return ("Glob", t[1] + suffix, tuple(rename_globs(x, suffix) for x in t[2]))
-    return tuple(rename_globs(x, suffix) if isinstance(x, tuple) else x for x in t)
+    if isinstance(t, G.T):
+        if t[0] == "Glob" and t[1] in ("grey_erosion", "grey_dilation"):
+            return G.Glob(t[1] + suffix, *[rename_globs(x, suffix) for x in t[2]])
+        return G.T(*[rename_globs(x, suffix) for x in t])
+    return tuple(rename_globs(x, suffix) for x in t)
 
 
 def t_roberts(M):
@@ -67,8 +68,7 @@ def t_roberts(M):
 def t_canny(M):
     fn = M.funcs["smooth_with_function_and_mask"]
     it = G.Interp(M, fn, {"image": Img, "function": Const("$callable"), "mask": MaskE})
-    it.run(G.strip_doc(fn))
-    smoothed = it.ret
+    smoothed = it.run_function()
     emask = Erode(1, MaskE)
     # everything after `smoothed = ...` reads `image` only through image.shape and `mask` only through emask
     # (checked syntactically by check_canny_reads below)
@@ -131,24 +131,29 @@ def t_convex_hull_transform(M):
     return Select(Const("zeros"), Glob("len_is_0", Gm), body)           # if len(unmasked_pixels) == 0: return zeros
 
 
-def _regmax_ties(M, repaired=True):
+RSYM = 987654          # stands for the symbolic radius `r` of the structure (printed as `r` by Emitter.coq_param)
+
+
+def _regmax_ties(M, repaired=True, r=1):
     # result = ones; result[~mask] = False (the repair 4e442e0);  result &= AND over the structure's offsets (centre
     # excluded) of the shifted zero-padded mask = punctured erosion;  result[...][image < shifted image] = False reads
     # the 8 neighbours (default 3x3 structure)
-    t = Select(Not(Loc(1, "has_greater_neighbour", Img)), ErodeP(1, MaskE), FalseC)
+    # a (2r+1)x(2r+1) structure reads / erodes within radius r
+    t = Select(Not(Loc(r, "has_greater_neighbour", Img)), ErodeP(r, MaskE), FalseC)
     return And(MaskE, t) if repaired else t
 
 
 def t_regional_maximum_ties(M): return _regmax_ties(M)
 
 
-def _regmax_default(M, repaired):
-    T = _regmax_ties(M, repaired)                         # result = regional_maximum(image, mask, structure, True)
+def _regmax_default(M, repaired, r=1):
+    T = _regmax_ties(M, repaired, r)                         # result = regional_maximum(image, mask, structure, True)
     picked = Glob("one_pixel_per_component(edt,label,rank_order,maximum_position)", T)
     return Select(picked, Glob("any", T), T)              # if not np.any(result): return result
 
 
 def t_regional_maximum_default(M): return _regmax_default(M, True)
+def t_regional_maximum_param(M): return _regmax_default(M, True, RSYM)
 def t_regional_maximum_unmasked_ties(M): return _regmax_default(M, False)
 
 
@@ -170,17 +175,14 @@ def t_skeletonize(M):
     return Select(Pw("astype", core), MaskE, Img)         # result[~mask] = image[~mask]
 
 
-HAND = {
-    "stretch": t_stretch, "median_filter": t_median_filter_fixed, "openlines": t_openlines, "roberts": t_roberts,
-    "canny": t_canny, "circular_average_filter": t_circular_average_filter, "fit_polynomial": t_fit_polynomial,
-    "circular_hough": t_circular_hough, "convex_hull_transform": t_convex_hull_transform,
-    "regional_maximum": t_regional_maximum_default, "spur": t_spur, "thin": t_thin, "skeletonize": t_skeletonize,
-}
-# as-is variants that the checker must REJECT (stated as Examples `accepts … = false`)
+HAND = {"openlines": t_openlines, "circular_hough": t_circular_hough, "regional_maximum": t_regional_maximum_default,
+        "convex_hull_transform": t_convex_hull_transform}
+# pre-repair shapes that the checker must REJECT (stated as Examples `accepts … = false`)
 REJECTED = {"median_filter_unmasked_minmax": ("median_filter", t_median_filter_asis),
             "regional_maximum_unmasked_ties": ("regional_maximum", t_regional_maximum_unmasked_ties)}
 # further accepted configurations of listed functions (extra Examples)
 EXTRA = {"regional_maximum_ties_are_ok": ("regional_maximum", t_regional_maximum_ties)}
-# functions whose hand term depends on other functions' code (pinned too)
-ALSO_PINNED = {"canny": ["smooth_with_function_and_mask"], "openlines": ["opening", "grey_erosion", "grey_dilation"],
-               "circular_average_filter": ["masked_convolution"], "thin": [], "spur": []}
+# other functions whose code the hand terms rely on (pinned too)
+# terms with a symbolic radius: `forall r, accepts (prog_<name> r) = true`
+PARAM = {"regional_maximum_at": ("regional_maximum", t_regional_maximum_param)}
+ALSO_PINNED = {}      # openlines' term takes opening/grey_erosion/grey_dilation from the translator, not from a pin
